@@ -92,6 +92,12 @@ func vfC05Direct(rec *evid.Rec, ep int) {
 					break
 				}
 			}
+			// two live values must never name... and one value must never be issued while it is live for another path
+			for oid, op := range live {
+				if oid == id && op != p {
+					fail("C05/live-value-issued-again-for-other-path", fmt.Sprintf("value %d is live for %s and was returned by Allocate(%s)", id, op, p))
+				}
+			}
 			live = tbl
 			rec.Distinct(fmt.Sprintf("direct|max=%d|alloc|%s|full=%v", max, state, len(tbl) >= max))
 		case k < 90:
@@ -109,7 +115,16 @@ func vfC05Direct(rec *evid.Rec, ep int) {
 			}
 			delete(live, id)
 			rec.Distinct(fmt.Sprintf("direct|max=%d|release", max))
-		case k < 93:
+		case k < 92:
+			// a redundant release: a value released before, or one never issued
+			id := uint64(1 + rng.Intn(3*max+3))
+			if _, isLive := live[id]; isLive {
+				continue
+			}
+			ops = append(ops, fmt.Sprintf("Release %d (not live)", id))
+			fm.Release(id)
+			rec.Distinct(fmt.Sprintf("direct|max=%d|redundant-release", max))
+		case k < 94:
 			ops = append(ops, "ReleaseAll")
 			fm.ReleaseAll()
 			if fm.Count() != 0 {
@@ -267,11 +282,15 @@ func vfC06Direct(rec *evid.Rec, ep int) {
 		case k < 60:
 			p := fmt.Sprintf("/p%d", rng.Intn(pool))
 			ops = append(ops, "Allocate "+p)
+			liveBefore, _ := vfHandleTable(fm)
 			id := fm.Allocate(vfNode(fs, p))
 			if fm.Count() >= max {
 				lastTrigger = "eviction"
 			}
-			if fp, seen := first[id]; seen && fp != p {
+			if other, live := liveBefore[id]; live && other != p {
+				rec.Violate("C06/live-value-issued-for-another-path", fmt.Sprintf("handle value %d is live for %s and was issued again for %s [max=%d]", id, other, p, max),
+					map[string]any{"episode": ep, "max": max, "ops": append([]string(nil), ops...)})
+			} else if fp, seen := first[id]; seen && fp != p {
 				reissued[id] = true
 				rec.Violate("C06/freed-value-reissued-for-another-path",
 					fmt.Sprintf("handle value %d was first issued for %s and is now issued for %s [max=%d]", id, fp, p, max),
@@ -301,13 +320,24 @@ func vfC06Direct(rec *evid.Rec, ep int) {
 			} else {
 				rec.Distinct("direct|replay|stale")
 			}
-		case k < 95:
+		case k < 93:
 			tbl, _ := vfHandleTable(fm)
 			for id := range tbl {
 				ops = append(ops, fmt.Sprintf("Release %d", id))
 				fm.Release(id)
 				lastTrigger = "release"
+				if rng.Intn(3) == 0 { // released twice
+					ops = append(ops, fmt.Sprintf("Release %d (again)", id))
+					fm.Release(id)
+				}
 				break
+			}
+		case k < 96:
+			tbl, _ := vfHandleTable(fm)
+			id := uint64(1 + rng.Intn(3*max+3))
+			if _, isLive := tbl[id]; !isLive {
+				ops = append(ops, fmt.Sprintf("Release %d (not live)", id))
+				fm.Release(id)
 			}
 		default:
 			ops = append(ops, "ReleaseAll")
